@@ -145,5 +145,39 @@ def run(ctx):
                 res.ok('handover/before-custom-data', {'custom_data_at': wh(info[d][5])})
             else:
                 res.bad('handover/before-custom-data', 'CustomSection::data runs before the index map is complete', wh(info[d][5]))
+    # after the hand-over the context's index map is empty (it was taken): no step may look an index up in it any more
+    if handover is not None:
+        for i, (pos, name, p, g, inloop, at) in enumerate(info):
+            if i > handover and g and not norm_path(name).endswith('CustomSection::data'):
+                res.bad('lookup/%s/after-handover' % short(name), 'step %s looks up %s indices after the index map was taken out of the '
+                        'emit context: the lookup finds nothing' % (short(name), sorted(g)), wh(at))
+    # the code transform: what custom sections are handed describes the code section, so the step that writes the code
+    # section (and fills cx.code_transform) comes before every apply_code_transform
+    def writes_code(defs):
+        for d in defs:
+            b = F.mir.get(norm_path(d)) or F.mir.get(d)
+            if not b:
+                continue
+            for blk in b['blocks']:
+                t = blk['term']
+                if t.get('t') == 'Call' and norm_path(callee_name(t) or '').endswith('wasm_encoder::CodeSection::new'):
+                    return True
+        return False
+    code_steps = [i for i, x in enumerate(steps) if writes_code(x[2])]
+    applies = [i for i, x in enumerate(info) if norm_path(x[1]).endswith('CustomSection::apply_code_transform')]
+    if not code_steps:
+        res.error('no emit step writes the code section')
+    elif applies:
+        def before(i, j):
+            """step i is over before step j can run (same function: j is not followed by i on any path)"""
+            (fi, bi), (fj, bj) = steps[i][4], steps[j][4]
+            if fi == fj:
+                return bi != bj and bi not in cfgs[fi][1].reach_after(bj)
+            return i < j
+        if all(before(c_, a) for c_ in code_steps for a in applies):
+            res.ok('code-transform/after-code-section', {'code_section_step': short(info[max(code_steps)][1]), 'apply_steps': len(applies)})
+        else:
+            res.bad('code-transform/after-code-section', 'custom sections are handed the code transform before %s has written the code '
+                    'section: the transform is still empty' % short(info[max(code_steps)][1]), wh(info[applies[0]][5]))
     res.note('steps: ' + ' -> '.join(short(x[1]) for x in info if x[2] or x[3]))
     return res
